@@ -56,6 +56,8 @@ pub enum S {
     BadCommitSig,
     BadHtlcSig,
     OtherContent,
+    /// fewer HTLC signatures than HTLCs (the last one is missing)
+    MissingHtlcSig,
 }
 
 #[derive(Clone, Copy, Debug, PartialEq, Eq, Hash, Serialize, Deserialize)]
@@ -317,6 +319,12 @@ impl ChanModel {
             let (_, h2) = p.cp_sign_holder_commitment(&Cp::new(90), n, &point, &cont);
             hsigs[0] = h2[0];
         }
+        if sv == S::MissingHtlcSig {
+            if hsigs.is_empty() {
+                return None;
+            }
+            hsigs.pop();
+        }
         let hst = if p.setup.is_anchors() { EcdsaSighashType::SinglePlusAnyoneCanPay } else { EcdsaSighashType::All };
         Some((
             cont,
@@ -442,11 +450,11 @@ impl Model for ChanModel {
                             continue;
                         }
                         for c in [C::A, C::B] {
-                            for sv in [S::Valid, S::BadCommitSig, S::BadHtlcSig, S::OtherContent] {
+                            for sv in [S::Valid, S::BadCommitSig, S::BadHtlcSig, S::OtherContent, S::MissingHtlcSig] {
                                 if d == -2 && sv != S::Valid {
                                     continue;
                                 }
-                                if sv == S::BadHtlcSig && c == C::A {
+                                if (sv == S::BadHtlcSig || sv == S::MissingHtlcSig) && c == C::A {
                                     continue;
                                 }
                                 v.push(Op::Validate(n, c, sv));
